@@ -103,7 +103,7 @@ CLAIMED = {
        "PIPELINES OF ANY LENGTH (Thm/C11Chain): an invariant every stage preserves - LL it f xs: called repeatedly, `it` returns the elements of xs in order and then an "
        "end marker - holds of `a~` with a (iter_LL) and is carried through `@ g`, `? p`, `? T` to map h / filter q / filter (type test) of the list (map_LL, filter_LL, tfilter_LL); by "
        "induction over the list of stages, `a~ s1 .. sn` pulls exactly spec_n(..(spec_1 a)) and `.. $]` is that array, for every number and order of stages and callbacks that "
-       "compute the named functions without touching the store (pipeline_LL, pipeline_pulls, pipeline_collect); a built-in reducer or `$ init g` over such a pipeline is the fold over the composed list (pipeline_reduce, pipeline_fold; pipeline_partition for the ordered split); at the level of the expression, `e~ @ g $]` evaluates to the array of map h es and `e~ ? p $]` to that of filter q es (iter_map_collect_expr, iter_filter_collect_expr). "
+       "compute the named functions without touching the store (pipeline_LL, pipeline_pulls, pipeline_collect); a built-in reducer or `$ init g` over such a pipeline is the fold over the composed list (pipeline_reduce, pipeline_fold; pipeline_partition for the ordered split); at the level of the expression, `e~ @ g $]` evaluates to the array of map h es and `e~ ? p $]` to that of filter q es (iter_map_collect_expr, iter_filter_collect_expr; iter_tfilter_collect_expr for `? T`). "
        "Tied to the implementation by operator pipelines over array-derived and user-written sources with logging callbacks, "
        "compared three ways: implementation, Spec, and an independent Python simulation of list semantics (value and log).",
   note=SPEC_NOTE + " The three closure texts and the array iterator are proved for runs of any length; pipelines of any length are proved for store-independent callbacks (pipeline_collect); with effectful callbacks they are composed step by step (call-level theorems).",
